@@ -424,6 +424,19 @@ func builtinModels() map[string]modelFn {
 	m["net/http.DetectContentType"] = func(e *Engine, st *State, c *callCtx) {
 		e.finish(st, c, e.constString("application/octet-stream"))
 	}
+	// go:linkname forwarders (body-less declarations bound to a function of another package)
+	m["mime/multipart.readMIMEHeader"] = func(e *Engine, st *State, c *callCtx) {
+		p := e.prog.ImportedPackage("net/textproto")
+		if p == nil || p.Func("readMIMEHeader") == nil {
+			e.unsupported(st, "net/textproto.readMIMEHeader not loaded")
+			return
+		}
+		e.callFunction(st, p.Func("readMIMEHeader"), c.args, nil, c.ret)
+	}
+	// GODEBUG settings: every setting has its default value
+	m["(*internal/godebug.Setting).Value"] = func(e *Engine, st *State, c *callCtx) { e.finish(st, c, StrVal{}) }
+	m["(*internal/godebug.Setting).IncNonDefault"] = func(e *Engine, st *State, c *callCtx) { e.finish(st, c, nil) }
+	m["internal/godebug.New"] = func(e *Engine, st *State, c *callCtx) { e.finish(st, c, PtrVal{}) }
 	noPrint := func(e *Engine, st *State, c *callCtx) {
 		e.finish(st, c, TupleVal{e.intVal(0), IfaceVal{}})
 	}
